@@ -2,7 +2,7 @@
 import numpy as np
 import impl, cases
 from gen import grid, data, unc, material
-from .common import tolist
+from .common import tolist, Unchanged
 
 LEAN = "PystogVerif.Props.C09"
 RSP, QSP = ["g", "G", "GK"], ["F", "S", "FK", "DCS"]
@@ -41,7 +41,10 @@ def evaluate(case):
     cutoff = case["cutoff"]
     fails = []
     with np.errstate(all="ignore"):
+        guard = Unchanged(r, g, q, f, dg, df)
         ref = [np.asarray(o, dtype=float) for o in ff.g_using_F(r, g, q, f, cutoff, dg, df, **kw)]
+        if guard.violated():
+            return ["g_using_F: modifies an input array in place, so a later variant fed the same arrays sees already-filtered data"]
         for X in RSP:
             for Y in QSP:
                 if (X, Y) == ("g", "F"):
@@ -53,6 +56,8 @@ def evaluate(case):
                 if df is None:
                     dfi = None
                 o = getattr(ff, f"{X}_using_{Y}")(r, gi, q, fi, cutoff, dgi, dfi, **kw)
+                if guard.violated():
+                    return [f"{X}_using_{Y}: modifies an input array in place, so a later variant fed the same arrays sees already-filtered data"]
                 q_ft, rem, qc, cor, ro, go, drem, dcor, dgo = o
                 if Y != "F":
                     rem, drem = getattr(cv, f"{Y}_to_F")(q_ft, rem, drem, **kw)
